@@ -181,25 +181,39 @@ example : WF demo ∧ Inv demo := C19_space_reachable _
 
 example : (copySpace demo 0).isSome = true := by rfl
 
-/-- the world after copying the demo space (`good = false`: the code before S22) -/
-def demoCopy (good : Bool) : World :=
-  match (if good then copySpace demo 0 else ghostCopy demo 0) with
+/-- the world after copying the demo space -/
+def demoCopy : World :=
+  match copySpace demo 0 with
   | some p => p.1
   | none => demo
 
-example : view (demoCopy true) 7 = some ([(8, 0, some 1, [], [9], 7, some 7), (9, 1, some 1, [11], [8, 10], 7, some 7),
+example : view demoCopy 7 = some ([(8, 0, some 1, [], [9], 7, some 7), (9, 1, some 1, [11], [8, 10], 7, some 7),
     (10, 2, some 1, [12], [9], 7, some 7)], [(11, 1, some 9), (12, 2, some 10), (13, 3, none)]) := by rfl
 
-example : uidsOf demo [4, 5] = [1, 2] ∧ uidsOf (demoCopy true) [11, 12] = [1, 2] := by decide
+example : uidsOf demo [4, 5] = [1, 2] ∧ uidsOf demoCopy [11, 12] = [1, 2] := by decide
 
-/-- **The code before S22 violates the property**: the same cells, capacities, occupancy and connections come back, but
-    each copied agent points to a cell (16, 17: the second reconstruction of its cell) that is not a cell of the copied space —
-    while the repaired copy has no such agent.  (One agent per occupied cell: for that case `ghostCopy` is the old code exactly.) -/
+/-- a history with one placed agent (for it `ghostCopy` is the code before S22 exactly: `deepcopy` reaches the occupied cell
+    through the space, its agent through the cell, and the cell once more through the agent before the first reconstruction
+    is memoised; run on that code, mesa gives the view below, with `?` for cell 14) -/
+def demoOne : World :=
+  run init [.newSpace 3 (some 1) true [(0, 1), (1, 0), (1, 2), (2, 1)], .newAgent 0, .newAgent 0, .set 4 2]
+
+/-- what the copy of space 0 of `demoOne` shows and which of its agents point outside it (`good = false`: the code before S22) -/
+def copyOne (good : Bool) : Option (List (Nat × Nat × Option Nat × List Nat × List Nat × Nat × Option Nat) ×
+    List (Nat × Nat × Option Nat)) × List Nat :=
+  match (if good then copySpace demoOne 0 else ghostCopy demoOne 0) with
+  | some p => (view p.1 p.2, strays p.1 p.2)
+  | none => (none, [])
+
+/-- **The code before S22 violates the property**: the same cells, capacities, occupancy and connections come back, but the
+    copied agent points to a cell (14: the second reconstruction of its cell) that is not a cell of the copied space — while
+    the repaired copy has no such agent and the pointer leads to the copy's own cell 8. -/
 theorem C19_space_ghost_copy_points_outside :
-    view (demoCopy false) 7 = some ([(8, 0, some 1, [], [9], 7, some 7), (9, 1, some 1, [11], [8, 10], 7, some 7),
-      (10, 2, some 1, [12], [9], 7, some 7)], [(11, 1, some 16), (12, 2, some 17), (13, 3, none)]) ∧
-    strays (demoCopy false) 7 = [11, 12] ∧ strays (demoCopy true) 7 = [] :=
-  ⟨by rfl, by decide, by decide⟩
+    copyOne false = (some ([(7, 0, some 1, [], [8], 6, some 6), (8, 1, some 1, [10], [7, 9], 6, some 6),
+      (9, 2, some 1, [], [8], 6, some 6)], [(10, 1, some 14), (11, 2, none)]), [10]) ∧
+    copyOne true = (some ([(7, 0, some 1, [], [8], 6, some 6), (8, 1, some 1, [10], [7, 9], 6, some 6),
+      (9, 2, some 1, [], [8], 6, some 6)], [(10, 1, some 8), (11, 2, none)]), []) :=
+  ⟨by rfl, by rfl⟩
 
 /-- **Frame.**  A history none of whose operations writes an object the space depends on (the space / model record, its
     cells, its registered agents) leaves what the space shows unchanged — whatever else it creates, moves, removes or copies. -/
@@ -250,21 +264,21 @@ theorem C19_space_copy_detached (w : World) (hw : WF w) (s : Nat) (w' : World) (
 /-- the two premises of `C19_space_copy_detached` are satisfiable by real work on either side: in the copy, taking an agent
     out of its cell, moving another one there and creating one writes fresh objects only; in the original, a refused move
     into the full cell, a move and a removal write old objects only -/
-example : WritesOnly (fun x => demo.next ≤ x) (demoCopy true) [.unset 12, .set 11 10, .newAgent 7] := by
+example : WritesOnly (fun x => demo.next ≤ x) demoCopy [.unset 12, .set 11 10, .newAgent 7] := by
   simp only [WritesOnly]
   decide
 
-example : WritesOnly (fun x => x < demo.next) (demoCopy true) [.set 6 2, .set 4 1, .remove 5] := by
+example : WritesOnly (fun x => x < demo.next) demoCopy [.set 6 2, .set 4 1, .remove 5] := by
   simp only [WritesOnly]
   decide
 
-example : (setCell (demoCopy true) 6 2).2 = .full := by rfl
+example : (setCell demoCopy 6 2).2 = .full := by rfl
 
-example : view (run (demoCopy true) [.unset 12, .set 11 10, .newAgent 7]) 7 =
+example : view (run demoCopy [.unset 12, .set 11 10, .newAgent 7]) 7 =
     some ([(8, 0, some 1, [], [9], 7, some 7), (9, 1, some 1, [], [8, 10], 7, some 7), (10, 2, some 1, [11], [9], 7, some 7)],
       [(11, 1, some 10), (12, 2, none), (13, 3, none), (14, 1, none)]) := by rfl
 
-example : view (run (demoCopy true) [.set 6 2, .set 4 1, .remove 5]) 0 =
+example : view (run demoCopy [.set 6 2, .set 4 1, .remove 5]) 0 =
     some ([(1, 0, some 1, [4], [2], 0, some 0), (2, 1, some 1, [], [1, 3], 0, some 0), (3, 2, some 1, [], [2], 0, some 0)],
       [(4, 1, some 1), (6, 3, none)]) := by
   rfl
